@@ -239,6 +239,77 @@ def escapes(fm: FuncModel, at: N, cuts: Iterable[N], loop: ast.AST | None,
     return "; ".join(ends)
 
 
+def earlier_sweeps(fm: FuncModel, loop: ast.AST | None) -> list[ast.For]:
+    """Loops that ran to completion before `loop` over the very same collection: `for x in L: A(x)` ... `for y in L: B(y)`
+    with L a local bound once to a fresh list (list(..), sorted(..), a comprehension) and not changed in between. What
+    the first loop does to every element has been done to the element the second loop is looking at."""
+    if not isinstance(loop, ast.For) or not isinstance(loop.iter, ast.Name) or not isinstance(loop.target, ast.Name):
+        return []
+    L = loop.iter.id
+    hdr2 = fm.cfg.loop_header[loop]
+    defs2 = fm.cfg.reaching_defs(L, hdr2)
+    if len(defs2) != 1 or defs2[0].kind != "stmt" or not isinstance(defs2[0].ast, ast.Assign):
+        return []
+    v = defs2[0].ast.value
+    fresh = isinstance(v, (ast.List, ast.ListComp)) or isinstance(v, ast.Call) and isinstance(v.func, ast.Name) \
+        and v.func.id in ("list", "sorted", "tuple")
+    if not fresh:
+        return []
+    out = []
+    par = fm.f.parents.get(loop)
+    for fld in ("body", "orelse", "finalbody"):
+        blk = getattr(par, fld, None)
+        if not (isinstance(blk, list) and loop in blk):
+            continue
+        k = blk.index(loop)
+        for st in blk[:k]:
+            if not (isinstance(st, ast.For) and isinstance(st.iter, ast.Name) and st.iter.id == L and isinstance(st.target, ast.Name)
+                    and not st.orelse):
+                continue
+            if [d.id for d in fm.cfg.reaching_defs(L, fm.cfg.loop_header[st])] != [defs2[0].id]:
+                continue
+            if any(isinstance(b, ast.Break) and fm.cfg.enclosing_loops(fm.cfgn(b))[0] is st for b in ast.walk(st)):
+                continue
+            # the list is not changed from the first loop on
+            touched = False
+            for s2 in blk[blk.index(st):k + 1]:
+                for y in ast.walk(s2):
+                    if isinstance(y, ast.Call) and isinstance(y.func, ast.Attribute) and isinstance(y.func.value, ast.Name) \
+                            and y.func.value.id == L and y.func.attr not in ("copy", "index", "count"):
+                        touched = True
+                    if isinstance(y, ast.Subscript) and isinstance(y.ctx, (ast.Store, ast.Del)) and isinstance(y.value, ast.Name) \
+                            and y.value.id == L:
+                        touched = True
+                    if isinstance(y, ast.Name) and y.id == L and isinstance(y.ctx, (ast.Store, ast.Del)):
+                        touched = True
+            if not touched:
+                out.append(st)
+    return out
+
+
+def swept_reset(fm: FuncModel, loop: ast.AST | None, diag_key: str, field: str, is_reset) -> bool:
+    """Was `field` of every element of the collection `loop` ranges over reset by an earlier complete sweep?"""
+    for l1 in earlier_sweeps(fm, loop):
+        hk1 = None
+        for e in fm.field_events():
+            if e.kind == "store" and e.field == field and e.hk[0] == diag_key and fm.cfg.loop_header[l1].id != e.cfgn.id \
+                    and e.cfgn.id in fm.cfg.loop_nodes[l1] and is_reset(e.value):
+                # the handle must be the sweep's own element
+                if e.hk[1] == fm.vkey(ast.Name(l1.target.id, ast.Load()), e.cfgn):
+                    hk1 = e.hk
+        if hk1 is None:
+            continue
+        cuts = [e.cfgn for e in handle_stores(fm, hk1, field) if is_reset(e.value)]
+        hdr = fm.cfg.loop_header[l1]
+        start = next(fm.cfg.nodes[s_] for s_ in fm.cfg.g.successors(hdr.id)
+                     if fm.cfg.nodes[s_].kind == "branch" and fm.cfg.nodes[s_].pol)
+        reach = reach_stop(fm, start, {c.id for c in cuts}, {hdr.id, fm.cfg.exit.id})
+        if start.id not in {c.id for c in cuts} and hdr.id in reach:
+            continue        # an iteration can end without the reset
+        return True
+    return False
+
+
 def handle_stores(fm: FuncModel, hk: tuple, field: str) -> list[FieldEvent]:
     return [e for e in fm.field_events() if e.kind == "store" and e.field == field and e.hk == hk]
 
